@@ -106,9 +106,11 @@ pub fn thread_cpu_us() -> u64 {
     ts.tv_sec as u64 * 1_000_000 + ts.tv_nsec as u64 / 1000
 }
 
-pub const SCALING_FAMILIES: [&str; 10] = [
+pub const SCALING_FAMILIES: [&str; 14] = [
     "forward_jumps", "backward_jumps", "labels", "macro_uses", "data_bytes", "procedures", "prints", "comment_lines", "undefined_then_error",
     "mem_dump_bytes",
+    // one long line: here the size is the length of a single line (16 n characters)
+    "line_quote_then_semicolons", "line_semicolons", "line_quotes", "line_commas",
 ];
 
 /// a program of "size n" of one family; cost must grow in proportion to n
@@ -169,6 +171,21 @@ fn scaling_program(family: &str, n: usize) -> String {
             // here the size is the length of what one statement prints: 14 n bytes of memory
             // (n = 18 000: a quarter of the memory against nearly all of it)
             t.push_str(&format!("start:\nmov byte [5], 7\nprint mem 0 -> {}\n", (14 * n).min(1 << 20) - 1));
+        }
+        "line_quote_then_semicolons" | "line_semicolons" | "line_quotes" | "line_commas" => {
+            // a string that is never closed followed by comment signs; a line of comment signs;
+            // a line of quotes; a statement with far too many commas
+            let (head, tok) = match family {
+                "line_quote_then_semicolons" => ("db \"", ";"),
+                "line_semicolons" => ("", ";"),
+                "line_quotes" => ("db ", "\""),
+                _ => ("start:\nmov ax", ","),
+            };
+            t.push_str(head);
+            for _ in 0..16 * n {
+                t.push_str(tok);
+            }
+            t.push_str("\nstart:\ninc ax\n");
         }
         "comment_lines" => {
             t.push_str("start:\n");
@@ -237,7 +254,7 @@ pub fn memory_scaling(thorough: bool) -> (serde_json::Value, Vec<(String, String
     };
     table.insert("empty_program_kib".to_owned(), serde_json::json!(base));
     for family in SCALING_FAMILIES.iter() {
-        if *family == "mem_dump_bytes" {
+        if *family == "mem_dump_bytes" || family.starts_with("line_") {
             // (the input is three lines; what grows is the recorded history, which is the harness' memory)
             continue;
         }
